@@ -25,10 +25,11 @@ CONSTANTS
     AbsTimes,    \* times for schedule_event_abs (one before the clock = illegal request)
     BadKinds,    \* subset of {"nan_abs", "nan_rel", "str_abs"}: ill-formed requests
     MaxOps,      \* operations per handler
-    Strategy,    \* "continue" (log/warn and continue) or "pause" (warn and pause)
+    Strategy,    \* initial error strategy: "continue" (log/warn and continue) or "pause" (warn and pause)
     Bounds,      \* bounds offered to run_up_to / run_up_to_including
     MaxInits,    \* number of initialize commands explored
     AllowFaults, \* BOOLEAN: may handlers raise
+    StratOps,    \* subset of {0, 1}: strategies a handler may switch to (0 continue, 1 pause)
     MaxCmds,     \* commands (accepted or refused) explored per behaviour
     Cmds         \* which commands a configuration explores (Initialize is always explored)
 
@@ -49,10 +50,11 @@ VARIABLES
     nrep,        \* initialize commands so far
     premature,   \* end_replication was used
     ncmd,        \* commands issued so far
+    strat,       \* current error strategy (a handler may change it: operation "strat")
     op           \* last action (for replay / trace binding)
 
 vars == <<rs, rep, clock, ev, pending, bound, incl, mode, seg, executed, prog, initOps,
-          ann, due, notif, nrep, premature, ncmd, op>>
+          ann, due, notif, nrep, premature, ncmd, strat, op>>
 
 MaxPrio == 10
 Unset == <<[k |-> "unset", a |-> 0, p |-> 0]>>
@@ -70,6 +72,7 @@ OpSet(n) ==
   \cup [k : {"abs"}, a : AbsTimes, p : Prios]
   \cup [k : BadKinds, a : {0}, p : {5}]
   \cup [k : {"cancel"}, a : 1..n, p : {0}]
+  \cup [k : {"strat"}, a : StratOps, p : {0}]      \* set_error_strategy: 0 = continue, 1 = pause
 OpSeqs(n) == UNION {[1..k -> OpSet(n)] : k \in 0..MaxOps}
 NSched(ops) == Cardinality({i \in 1..Len(ops) : ops[i].k \in SchedKinds})
 Handlers(n) == {h \in [ops : OpSeqs(n), raise : IF AllowFaults THEN BOOLEAN ELSE {FALSE}] :
@@ -89,6 +92,13 @@ ApplyOps(ops, clk, E, P) ==
             ELSE IF o.k = "cancel"
             THEN LET r == ApplyOps(Tail(ops), clk, E, P \ {o.a}) IN [r EXCEPT !.res = <<-1>> \o @]
             ELSE LET r == ApplyOps(Tail(ops), clk, E, P) IN [r EXCEPT !.res = <<0>> \o @]
+
+(* the error strategy in force after a handler performed ops (last "strat" operation wins) *)
+RECURSIVE StratAfter(_, _)
+StratAfter(ops, cur) ==
+    IF ops = <<>> THEN cur
+    ELSE StratAfter(Tail(ops), IF Head(ops).k = "strat"
+                               THEN (IF Head(ops).a = 1 THEN "pause" ELSE "continue") ELSE cur)
 
 Within(E, m, b, inc) == E[m].t < b \/ (E[m].t = b /\ inc)
 
@@ -119,7 +129,7 @@ Init ==
     /\ clock = 0 /\ ev = <<>> /\ pending = {}
     /\ bound = 0 /\ incl = TRUE /\ mode = "none" /\ seg = 0
     /\ executed = <<>> /\ prog = <<>> /\ initOps = Unset
-    /\ ann = FALSE /\ due = <<>> /\ notif = <<>> /\ nrep = 0 /\ premature = FALSE /\ ncmd = 0
+    /\ ann = FALSE /\ due = <<>> /\ notif = <<>> /\ nrep = 0 /\ premature = FALSE /\ ncmd = 0 /\ strat = Strategy
     /\ op = [a |-> "Init"]
 
 Quiet == rs # "STARTED" /\ due = <<>> /\ mode = "none"
@@ -129,7 +139,7 @@ CmdOK == Quiet /\ ncmd < MaxCmds
 Refuse(name, arg) ==
     /\ op' = [a |-> name, arg |-> arg, res |-> "DSOLError"]
     /\ UNCHANGED <<rs, rep, clock, ev, pending, bound, incl, mode, seg, executed, prog, initOps,
-                   ann, due, notif, nrep, premature>>
+                   ann, due, notif, nrep, premature, strat>>
 
 InitializeWith(iops) ==
     /\ CmdOK /\ ncmd' = ncmd + 1 /\ nrep < MaxInits
@@ -141,10 +151,11 @@ InitializeWith(iops) ==
     /\ executed' = <<>> /\ notif' = <<>> /\ due' = <<>> /\ ann' = FALSE
     /\ mode' = "none" /\ seg' = 0 /\ nrep' = nrep + 1 /\ premature' = FALSE
     /\ op' = [a |-> "Initialize", arg |-> 0, res |-> "ok"]
-    /\ UNCHANGED <<bound, incl, prog>>
+    /\ UNCHANGED <<bound, incl, prog, strat>>
 
 Initialize == \E iops \in IF initOps = Unset
-                          THEN {s \in OpSeqs(0) : NSched(s) <= MaxId - 1}
+                          THEN {s \in OpSeqs(0) : /\ NSched(s) <= MaxId - 1
+                                                   /\ \A i \in 1..Len(s) : s[i].k \notin {"strat", "reinit"}}
                           ELSE {initOps} : InitializeWith(iops)
 
 CanStart == rs \in {"INITIALIZED", "STOPPED"} /\ rep \in {"INITIALIZED", "STARTED"} /\ clock < EndT
@@ -155,7 +166,7 @@ StartSegment(name, arg, b, inc) ==
     /\ due' = (IF rep = "INITIALIZED" THEN <<[ty |-> "START_REPLICATION", ts |-> clock]>> ELSE <<>>)
               \o <<[ty |-> "START", ts |-> clock]>>
     /\ op' = [a |-> name, arg |-> arg, res |-> "ok"]
-    /\ UNCHANGED <<clock, ev, pending, executed, prog, initOps, notif, nrep, premature>>
+    /\ UNCHANGED <<clock, ev, pending, executed, prog, initOps, notif, nrep, premature, strat>>
 
 Start == /\ CmdOK /\ ncmd' = ncmd + 1 /\ "Start" \in Cmds
          /\ IF CanStart THEN StartSegment("Start", 0, EndT, TRUE) ELSE Refuse("Start", 0)
@@ -179,7 +190,7 @@ Step ==
             /\ due' = (IF rep = "INITIALIZED" THEN <<[ty |-> "START_REPLICATION", ts |-> clock]>> ELSE <<>>)
                       \o <<[ty |-> "START", ts |-> clock]>>
             /\ op' = [a |-> "Step", arg |-> 0, res |-> "ok"]
-            /\ UNCHANGED <<clock, ev, pending, executed, prog, initOps, notif, nrep, premature>>
+            /\ UNCHANGED <<clock, ev, pending, executed, prog, initOps, notif, nrep, premature, strat>>
 
 (* stop() at quiescence is always refused: the simulator is not running *)
 Stop == CmdOK /\ ncmd' = ncmd + 1 /\ "Stop" \in Cmds /\ Refuse("Stop", 0)
@@ -190,7 +201,7 @@ Emit ==
     /\ notif' = Append(notif, Head(due)) /\ due' = Tail(due)
     /\ op' = [a |-> "Notif", ty |-> Head(due).ty, ts |-> Head(due).ts]
     /\ UNCHANGED <<rs, rep, clock, ev, pending, bound, incl, mode, seg, executed, prog, initOps,
-                   ann, nrep, premature, ncmd>>
+                   ann, nrep, premature, ncmd, strat>>
 
 Running == rs = "STARTED" /\ due = <<>>
 HasNext == pending # {} /\ Within(ev, MinOf(ev, pending), bound, incl)
@@ -204,7 +215,7 @@ AnnounceTC ==
        /\ op' = [a |-> "Notif", ty |-> "TIME_CHANGED", ts |-> ev[m].t]
     /\ ann' = TRUE
     /\ UNCHANGED <<rs, rep, clock, ev, pending, bound, incl, mode, seg, executed, prog, initOps,
-                   due, nrep, premature, ncmd>>
+                   due, nrep, premature, ncmd, strat>>
 
 ExecNextWith(h) ==
     /\ Running /\ ~StepDone /\ HasNext
@@ -219,7 +230,7 @@ ExecNextWith(h) ==
                /\ due' = <<[ty |-> "WARMUP", ts |-> ev[m].t]>>
                /\ op' = [a |-> "Exec", id |-> m, clk |-> ev[m].t, kind |-> "W", ops |-> <<>>,
                          res |-> <<>>, raise |-> FALSE]
-               /\ UNCHANGED <<rs, mode>>
+               /\ UNCHANGED <<rs, mode, strat>>
           ELSE /\ (m \in DOMAIN prog => h = prog[m])
                /\ LET r == ApplyOps(h.ops, ev[m].t, ev, pending \ {m}) IN
                   /\ prog' = IF m \in DOMAIN prog THEN prog
@@ -227,7 +238,8 @@ ExecNextWith(h) ==
                   /\ ev' = r.ev /\ pending' = r.pend
                   /\ op' = [a |-> "Exec", id |-> m, clk |-> ev[m].t, kind |-> "H", ops |-> h.ops,
                             res |-> r.res, raise |-> h.raise]
-               /\ IF h.raise /\ Strategy = "pause" /\ mode = "run"
+               /\ strat' = StratAfter(h.ops, strat)
+               /\ IF h.raise /\ strat' = "pause" /\ mode = "run"
                   THEN \* fault pause: the segment ends right after the failing event
                        /\ rs' = "STOPPED" /\ mode' = "none"
                        /\ due' = <<[ty |-> "STOP", ts |-> ev[m].t]>>
@@ -255,7 +267,7 @@ SegmentEnd ==
     /\ mode' = "none" /\ ann' = FALSE
     /\ premature' = (premature \/ (bound >= EndT /\ ~incl))   \* an exclusive bound at the end skips the events at the end
     /\ op' = [a |-> "SegmentEnd"]
-    /\ UNCHANGED <<ev, pending, bound, incl, seg, executed, prog, initOps, notif, nrep, ncmd>>
+    /\ UNCHANGED <<ev, pending, bound, incl, seg, executed, prog, initOps, notif, nrep, ncmd, strat>>
 
 (* step(): after at most one event the caller fires STOP and the simulator is STOPPED *)
 StepEnd ==
@@ -263,7 +275,7 @@ StepEnd ==
     /\ rs' = "STOPPED" /\ mode' = "none" /\ ann' = FALSE
     /\ due' = <<[ty |-> "STOP", ts |-> clock]>>
     /\ op' = [a |-> "StepEnd"]
-    /\ UNCHANGED <<rep, clock, ev, pending, bound, incl, seg, executed, prog, initOps, notif, nrep, premature, ncmd>>
+    /\ UNCHANGED <<rep, clock, ev, pending, bound, incl, seg, executed, prog, initOps, notif, nrep, premature, ncmd, strat>>
 
 (* stop() issued while a handler of this segment runs: the loop ends after that event *)
 Pause ==
@@ -272,7 +284,7 @@ Pause ==
     /\ rs' = "STOPPED" /\ mode' = "none"
     /\ due' = <<[ty |-> "STOP", ts |-> clock]>>
     /\ op' = [a |-> "Pause"]
-    /\ UNCHANGED <<rep, clock, ev, pending, bound, incl, seg, executed, prog, initOps, ann, notif, nrep, premature, ncmd>>
+    /\ UNCHANGED <<rep, clock, ev, pending, bound, incl, seg, executed, prog, initOps, ann, notif, nrep, premature, ncmd, strat>>
 
 (* end_replication() at quiescence on an initialised, not yet ended simulator *)
 EndReplication ==
@@ -283,14 +295,14 @@ EndReplication ==
     /\ due' = <<[ty |-> "END_REPLICATION", ts |-> clock']>>
     /\ premature' = TRUE
     /\ op' = [a |-> "EndReplication", arg |-> 0, res |-> "ok"]
-    /\ UNCHANGED <<ev, bound, incl, mode, seg, executed, prog, initOps, ann, notif, nrep>>
+    /\ UNCHANGED <<ev, bound, incl, mode, seg, executed, prog, initOps, ann, notif, nrep, strat>>
 
 Cleanup ==
     /\ "Cleanup" \in Cmds
     /\ CmdOK /\ ncmd' = ncmd + 1
     /\ rs' = "NOT_INITIALIZED" /\ rep' = "NOT_INITIALIZED"
     /\ op' = [a |-> "Cleanup", arg |-> 0, res |-> "ok"]
-    /\ UNCHANGED <<clock, ev, pending, bound, incl, mode, seg, executed, prog, initOps, ann, due, notif, nrep, premature>>
+    /\ UNCHANGED <<clock, ev, pending, bound, incl, mode, seg, executed, prog, initOps, ann, due, notif, nrep, premature, strat>>
 
 (* a brand-new simulator object is given the same model (used by trace validation: C06 C07) *)
 FreshSimulator ==
@@ -299,7 +311,7 @@ FreshSimulator ==
     /\ clock' = 0 /\ ev' = <<>> /\ pending' = {}
     /\ bound' = 0 /\ incl' = TRUE /\ mode' = "none" /\ seg' = 0
     /\ executed' = <<>> /\ ann' = FALSE /\ due' = <<>> /\ notif' = <<>> /\ premature' = FALSE
-    /\ op' = [a |-> "FreshSimulator"]
+    /\ op' = [a |-> "FreshSimulator"] /\ strat' = Strategy
     /\ UNCHANGED <<prog, initOps, nrep, ncmd>>
 
 RunUpToAny == \E b \in Bounds, inc \in BOOLEAN : RunUpTo(b, inc)
